@@ -2,8 +2,10 @@ package gmtls
 
 import (
 	"bytes"
+	"crypto/ecdsa"
 	"errors"
 
+	"github.com/tjfoc/gmsm/sm2"
 	"github.com/tjfoc/gmsm/x509"
 )
 
@@ -211,6 +213,69 @@ func zzH_c16_ticket_keys() {
 			// the zero reader of this harness stands for the random source
 			vAssert("unset-key-drawn-from-the-random-source", c.SessionTicketKey == [32]byte{})
 		}
+	}
+	vReach("end")
+}
+
+func zzRIParse(der []byte) (*x509.Certificate, error) {
+	return &x509.Certificate{Raw: der, PublicKey: &ecdsa.PublicKey{Curve: sm2.P256Sm2()}}, nil
+}
+func zzRIVerify(c *x509.Certificate, opts x509.VerifyOptions) ([][]*x509.Certificate, error) {
+	return [][]*x509.Certificate{{c}}, nil
+}
+
+// H16-resume-reissue: a session resumed from a ticket sealed under an old key gets a fresh
+// ticket, and that ticket seals the SAME session: version, suite, master secret and the client
+// certificates of the original handshake - so that the identity survives any number of
+// resumptions and key rotations.
+//
+//verif:property C16
+//verif:expect-reach end
+//verif:bound GMSSL and TLS server; resumed session with 0 or 1 stored client certificate and a symbolic 48-byte master secret; the ticket was sealed under an old key (a new one is issued) or not; certificate parsing and chain verification replaced by accepting models, ticket encryption by a recording function
+//verif:outside ticket encryption and authenticity (other C16 harnesses); the verification of the stored chain (C10)
+//verif:stub (*github.com/tjfoc/gmsm/gmtls.Conn).encryptTicket zzTIEncryptTicket
+//verif:stub (*github.com/tjfoc/gmsm/gmtls.Conn).writeRecord zzTIWriteRecord
+//verif:stub (*github.com/tjfoc/gmsm/gmtls.Conn).sendAlert zzStubSendAlert08
+//verif:stub (*github.com/tjfoc/gmsm/gmtls.finishedHash).Write zzEkmFHWrite
+//verif:stub github.com/tjfoc/gmsm/gmtls.newFinishedHash zzEkmNewFH
+//verif:stub github.com/tjfoc/gmsm/x509.ParseCertificate zzRIParse
+//verif:stub-symbolic (*github.com/tjfoc/gmsm/x509.Certificate).Verify zzRIVerify
+//verif:unwind 100
+func zzH_c16_resume_reissue() {
+	gm := vChoice("gm", 2) == 1
+	ms := vBytes("master", 48, 48)
+	old := vChoice("usedOldKey", 2) == 1
+	var certs [][]byte
+	if vChoice("clientCert", 2) == 1 {
+		certs = [][]byte{{7, 7}}
+	}
+	vers, suiteID := uint16(VersionTLS12), uint16(TLS_RSA_WITH_AES_128_CBC_SHA)
+	if gm {
+		vers, suiteID = VersionGMSSL, GMTLS_ECC_SM4_CBC_SM3
+	}
+	suite := &cipherSuite{id: suiteID}
+	st := &sessionState{vers: vers, cipherSuite: suiteID, masterSecret: ms, certificates: certs, usedOldKey: old}
+	c := &Conn{config: &Config{ClientAuth: RequestClientCert, InsecureSkipVerify: true}, vers: vers}
+	zzTI.calls, zzTI.writes, zzTI.state = 0, 0, nil
+	ch := &clientHelloMsg{vers: vers, random: make([]byte, 32), sessionId: []byte{5}}
+	var err error
+	if gm {
+		hs := &serverHandshakeStateGM{c: c, suite: suite, sessionState: st, clientHello: ch, hello: &serverHelloMsg{vers: vers, random: make([]byte, 32)}}
+		if err = hs.doResumeHandshake(); err == nil && hs.hello.ticketSupported {
+			err = hs.sendSessionTicket()
+		}
+	} else {
+		hs := &serverHandshakeState{c: c, suite: suite, sessionState: st, clientHello: ch, hello: &serverHelloMsg{vers: vers, random: make([]byte, 32)}}
+		if err = hs.doResumeHandshake(); err == nil && hs.hello.ticketSupported {
+			err = hs.sendSessionTicket()
+		}
+	}
+	vAssert("resume-and-reissue-ok", err == nil)
+	vAssert("new-ticket-iff-sealed-under-an-old-key", (zzTI.calls == 1) == old)
+	if zzTI.state != nil {
+		r := zzTI.state
+		vAssert("reissued-ticket-seals-the-same-session", r.vers == vers && r.cipherSuite == suiteID && bytes.Equal(r.masterSecret, ms) &&
+			len(r.certificates) == len(certs) && (len(certs) == 0 || bytes.Equal(r.certificates[0], certs[0])))
 	}
 	vReach("end")
 }
